@@ -135,6 +135,7 @@ func (run *vc36Run) continueFrom(k int, db database.Database, r *vcommon.Rand) *
 	end := rec.span("restart")
 	err := rs.Start()
 	end()
+	c.Count("cont_restart_writes", rec.n()) // what Service.Start itself writes (they would be crash points too)
 	if err != nil {
 		c.Inconclusive(fmt.Sprintf("scenario %s k=%d: the restart to continue from failed although the checked restart did not: %v", run.plan.Name, k, err))
 		return nil
